@@ -4,7 +4,7 @@ from ..monitors.composite import Composite
 
 make(globals(), "C12", [Composite],
      families=["dip_atom", "dip_in", "dip_out", "dip_ratio", "dip_motion", "dip_cellb", "dip_cellv", "water_vv",
-               "water_vi", "water_pb", "water_pi", "water_one", "hdd_one", "water_motion", "water_motion", "hdd"],
+               "water_vi", "water_pb", "water_pi", "water_one", "hdd_one", "water_motion", "water_motion", "hdd", "dip_motion_ff", "dip_motion_ff", "dip_atom_ff"],
      rule=("seeded whole runs of configurations with composite objects (dipoles with three liftings and mode "
            "switching, water, hard-disk dipole; 1-5 molecules); after every commit and on the initial state root "
            "velocity = weighted member velocities and root position = weighted barycentre at the event time; "
